@@ -45,7 +45,44 @@ func fromLogical(d *logical.Doc, xhtml bool) []byte {
 			sb.WriteString("<table>\n")
 			for r := 0; r < t.NRows; r++ {
 				sb.WriteString("<tr>")
-				for c := 0; c < t.NCols; c++ {
+				// the empty cells at the end of every other row (the first one included)
+				// are left out: a row with fewer cells than the table is wide is padded
+				// by the table model (HTML 4.9.12, "forming a table"); another row keeps
+				// the table's width
+				last := t.NCols - 1
+				if r%2 == 0 && t.NRows > 1 {
+					for last > 0 {
+						cl := t.Cells[r][last]
+						if cl == nil || cl.RowSpan > 1 || cl.ColSpan > 1 {
+							break
+						}
+						empty := true
+						for pi := range cl.Paras {
+							if !cl.Paras[pi].Empty() {
+								empty = false
+							}
+						}
+						covered := false
+						for rr := 0; rr < r; rr++ { // a row span from above reaching this slot
+							for cc := 0; cc <= last; cc++ {
+								if up := t.Cells[rr][cc]; up != nil && rr+up.RowSpan > r && cc+up.ColSpan > last {
+									covered = true
+								}
+							}
+						}
+						own := false // the row keeps at least one cell of its own
+						for cc := 0; cc < last; cc++ {
+							if t.Cells[r][cc] != nil {
+								own = true
+							}
+						}
+						if !empty || covered || !own {
+							break
+						}
+						last--
+					}
+				}
+				for c := 0; c <= last; c++ {
 					cell := t.Cells[r][c]
 					if cell == nil {
 						continue
